@@ -57,6 +57,11 @@ CHECKS = {
             "Every accepted generated script must produce a sketch with exactly one setup() and loop() that g++ (gnu++11, -fno-exceptions, -fpermissive) accepts against the mock Arduino core and mock Servo/LiquidCrystal headers; undeclared identifiers, inconsistent types, bad escaping and missing headers are compile errors there too.",
             "Mock core + host g++ stand in for the AVR toolchain and real libraries; compile-level findings already recorded are excluded by construction.",
             "DESIGN.md 3/C06"),
+    "C14": ("exploration",
+            "generated device multisets with decoys; oracle = equality of four independently derived library sets (generator knowledge, _collect_required_libraries, #include lines, global object classes) and link against mock headers",
+            "For every generated combination of 0-3 servos (prologue or top of main loop), 0-2 parallel and 0-2 I2C LCDs, other devices and decoy identifiers/strings/comments, the requested libraries, the included headers and the instantiated library classes must all equal the set the generator declared, with nothing listed twice and Wire.h accompanying the I2C header.",
+            "Library versions and registry names cannot be checked offline.",
+            "DESIGN.md 3/C14"),
 }
 
 PENDING = {}
